@@ -74,3 +74,137 @@ func Verif_C05_K1_NormalizeDir() {
 		v.Assert(d == f+"/", "dir-is-file-plus-slash")
 	}
 }
+
+// isCleanRel: relative, no empty/./.. component; optional single trailing '/'.
+func isCleanRel(p string, allowTrailing bool) bool {
+	if len(p) == 0 {
+		return true
+	}
+	if p[0] == '/' {
+		return false
+	}
+	if allowTrailing && p[len(p)-1] == '/' {
+		p = p[:len(p)-1]
+		if len(p) == 0 {
+			return false
+		}
+	}
+	return isCleanAbs("/" + p)
+}
+
+// Verif_C05_K1_Relative: AsRelativePath / AsExplicitRelativePath of a
+// normalised destination is the same path without the leading '/', resp.
+// with "./" in front; a directory keeps exactly one trailing '/'.
+func Verif_C05_K1_Relative() {
+	s := v.NondetString("dst", v.Bound("K1.len", 5, 7))
+	f := NormalizeAbsoluteFilePath(s)
+	d := NormalizeAbsoluteDirPath(s)
+	v.Reach("K1.rel.ran")
+	rf := AsRelativePath(f)
+	rd := AsRelativePath(d)
+	v.Observe("rf", rf)
+	v.Observe("rd", rd)
+	v.Assert(rf == f[1:], "rel-file-is-abs-minus-slash")
+	v.Assert(AsExplicitRelativePath(f) == "./"+f[1:], "explicit-rel-file")
+	if f != "/" {
+		// (that the directory spelling keeps its trailing '/' is a C04 clause and is asserted there)
+		v.Assert(rd == f[1:]+"/" || rd == f[1:], "rel-dir-is-abs-minus-slash")
+		v.Assert(isCleanRel(rd, true) && isCleanRel(rf, false), "rel-clean")
+	}
+}
+
+// Verif_C05_K1_Parents: sortedParents returns exactly the proper ancestors of
+// the normalised destination, shortest first.
+func Verif_C05_K1_Parents() {
+	s := v.NondetString("dst", v.Bound("K1.plen", 5, 7))
+	f := NormalizeAbsoluteFilePath(s)
+	ps := sortedParents(f)
+	v.Reach("K1.parents.ran")
+	// reference: every prefix of f that ends right before a '/' (excluding root)
+	var want []string
+	for i := 1; i < len(f); i++ {
+		if f[i] == '/' {
+			want = append(want, f[1:i])
+		}
+	}
+	v.Assert(len(ps) == len(want), "parents-count")
+	if len(ps) == len(want) {
+		ok := true
+		for i := range ps {
+			if NormalizeAbsoluteDirPath(ps[i]) != "/"+want[i]+"/" {
+				ok = false
+			}
+		}
+		v.Assert(ok, "parents-are-the-proper-ancestors-in-order")
+	}
+}
+
+func c05content(prefix string, n int) *Content {
+	return &Content{
+		Destination: v.NondetString(prefix+".dst", n),
+		Type:        v.NondetString(prefix+".type", n),
+		Packager:    v.NondetString(prefix+".pkgr", n),
+	}
+}
+
+// Verif_C05_K2_Order: Contents.Less is a strict total order on
+// (Destination, Type, Packager) and orders a directory before what it contains.
+func Verif_C05_K2_Order() {
+	n := v.Bound("K2.len", 2, 3)
+	c := Contents{c05content("a", n), c05content("b", n), c05content("c", n)}
+	v.Reach("K2.ran")
+	ab, ba := c.Less(0, 1), c.Less(1, 0)
+	bc, ac := c.Less(1, 2), c.Less(0, 2)
+	v.Assert(!c.Less(0, 0), "less-irreflexive")
+	v.Assert(!(ab && ba), "less-asymmetric")
+	v.Assert(!(ab && bc) || ac, "less-transitive")
+	same := c[0].Destination == c[1].Destination && c[0].Type == c[1].Type && c[0].Packager == c[1].Packager
+	v.Assert(same || ab || ba, "less-total")
+	if c[0].Destination != c[1].Destination {
+		v.Assert(ab == (c[0].Destination < c[1].Destination), "less-by-destination-first")
+	}
+}
+
+// Verif_C05_K2_DirBeforeChildren: "p/" sorts before every path that extends it.
+func Verif_C05_K2_DirBeforeChildren() {
+	n := v.Bound("K2.plen", 3, 4)
+	p := v.NondetString("p", n)
+	rest := v.NondetStringRange("rest", 1, n)
+	c := Contents{{Destination: p + "/"}, {Destination: p + "/" + rest}}
+	v.Reach("K2.dir.ran")
+	v.Assert(c.Less(0, 1) && !c.Less(1, 0), "dir-sorts-before-its-children")
+}
+
+var c05types = []string{TypeFile, TypeDir, TypeImplicitDir, TypeTree, TypeSymlink, TypeConfig, TypeConfigNoReplace,
+	TypeConfigMissingOK, TypeRPMGhost, TypeRPMDoc, TypeRPMLicence, TypeRPMLicense, TypeRPMReadme, TypeDebChangelog, ""}
+
+// Verif_C05_K3_Relevance: an entry is relevant iff it is addressed to this
+// packager (or to all) and its type exists there.
+func Verif_C05_K3_Relevance() {
+	pk := v.NondetString("packager", v.Bound("K3.len", 4, 9))
+	tag := v.NondetString("tag", v.Bound("K3.len", 4, 9))
+	var typ string
+	k := v.NondetChoice("type", len(c05types)+1)
+	if k < len(c05types) {
+		typ = c05types[k]
+	} else {
+		typ = v.NondetString("othertype", 3)
+	}
+	got := isRelevantForPackager(pk, &Content{Type: typ, Packager: tag})
+	v.Reach("K3.ran")
+	rpmOnly := typ == "ghost" || typ == "doc" || typ == "licence" || typ == "license" || typ == "readme"
+	debOnly := typ == "debian changelog"
+	want := true
+	if pk != "" {
+		if tag != "" && tag != pk {
+			want = false
+		}
+		if rpmOnly && pk != "rpm" {
+			want = false
+		}
+		if debOnly && pk != "deb" {
+			want = false
+		}
+	}
+	v.Assert(got == want, "relevance-matches-property-text")
+}
